@@ -57,6 +57,7 @@ def main():
         if r.returncode == 2: detail = r.stderr[-600:]
         print("%-4s %-40s %-10s %5.1fs %s" % (m["id"], m["name"], st, dt, detail), flush=True)
         results.append((m["id"], m["name"], st, dt))
+        sh("git", "-C", VERIF, "clean", "-fq", "replays")
     sh("git", "-C", WT, "checkout", "--", ".")
     # evidence files were rewritten by mutant runs; they belong to the scratch tree, restore from git
     sh("git", "-C", VERIF, "checkout", "--", "evidence")
